@@ -13,6 +13,10 @@ def decodeRuneAt (s : Bytes) (i : Int) : Int × Int :=
   let (r, w) := Utf8.decodeRune (s.drop i.toNat)
   (Int.ofNat r, Int.ofNat w)
 
+/-- utf8.DecodeRune / DecodeRuneInString: (rune, size); the empty string gives (RuneError, 0) -/
+def decodeRune (s : Bytes) : Int × Int :=
+  if s.isEmpty then (65533, 0) else let (r, w) := Utf8.decodeRune s; (Int.ofNat r, Int.ofNat w)
+
 def validUtf8 (s : Bytes) : Bool := Utf8.validString s
 
 def encodeRune (r : Int) : Bytes := Utf8.encode r.toNat
